@@ -90,9 +90,9 @@ theorem readFull_safe (crc : Bytes → Nat) (seq : Int) (s : Bytes) :
     apply safe_alloc (by omega)
     apply safe_make (by omega)
     apply safe_alloc (by omega)
-    apply safe_slice
-    · rw [buf0_length]; omega
-    · intro innerView hv
+    apply safe_sliceLen
+    · omega
+    · intro viewLen hv
       apply safe_readN
       intro inner s2 hinner
       split
